@@ -16,7 +16,9 @@ Sweep 2    every table kind of a Beancount-backed connection x every ordered pai
            SELECT c1 AS a FROM #tbl ORDER BY c2 [DESC] must be the stable sort of the rows of SELECT c1, c2.
 Sweep 3    a target `v IN (subquery1)` combined with ORDER BY `v IN (subquery2)`: the ordering key must be
            the second sub-query's membership, not the first's.
-Scope      keys of unorderable / rows of unhashable types are outside the property.
+Sweep 4    DISTINCT over rows holding dict / list values (compared by equality), all row sequences of <= 3 (4) rows
+           over an 8-letter alphabet mixing NULLs, equal and different unhashable values.
+Scope      keys of unorderable types are outside the property.
 """
 import itertools
 
@@ -288,8 +290,69 @@ def sweep3(acc, only=None):
                     acc.violation(fp, f'{show(stmt)}: got {got!r}, reference {exp!r}', {'kind': 'subq', 'tag': tag})
 
 
+# ---- sweep 4: DISTINCT over rows holding unhashable values (dict, list) ---------------------------
+
+UCOLS = [('k', str), ('mp', dict), ('ls', list)]
+UALPHA = [(None, None, None), ('a', None, None), ('a', {'x': 1}, None), ('a', {'x': 1}, ['p']), (None, {'x': 1}, None),
+          ('b', {}, []), ('a', {'x': 2}, ['p']), ('b', None, ['p'])]
+
+
+def ustatements():
+    k, mp, ls = col('k'), col('mp'), col('ls')
+    return [
+        ('k', select([(k, None)], from_='t', distinct=True)),
+        ('mp', select([(mp, None)], from_='t', distinct=True)),
+        ('ls', select([(ls, None)], from_='t', distinct=True)),
+        ('k,mp', select([(k, None), (mp, None)], from_='t', distinct=True)),
+        ('mp,k,ls', select([(mp, None), (k, None), (ls, None)], from_='t', distinct=True)),
+        ('k,mp order', select([(k, None), (mp, None)], from_='t', distinct=True, order_by=[A.OrderBy(col('k'), DESC)])),
+        ('ls limit', select([(ls, None), (k, None)], from_='t', distinct=True, limit=2)),
+    ]
+
+
+def sweep4(shard, nshards, L):
+    acc = Acc()
+    stmts = ustatements()
+    idx = 0
+    for n in range(0, L + 1):
+        for rows in itertools.product(UALPHA, repeat=n):
+            idx += 1
+            if not mine(idx, shard, nshards):
+                continue
+            sweep4_one(list(rows), stmts, acc)
+    return acc
+
+
+def sweep4_one(rows, stmts, acc, only=None):
+    table = HTable(UCOLS, rows)
+    conn = connect(t=table, postings=table)
+    for tag, stmt in stmts:
+        if only is not None and tag != only:
+            continue
+        acc.count('executions')
+        acc.count('unhashable_distinct_statements')
+        names, exp, info = refselect.execute(stmt, [n for n, _ in UCOLS], rows, dict(UCOLS))
+        try:
+            got = conn.execute(stmt).fetchall()
+        except Exception as e:
+            acc.violation(f'crash:{crash_fingerprint(e)}', f'{show(stmt)} on {rows!r} raised {type(e).__name__}: {e}', {'kind': 'unhashable', 'tag': tag, 'rows': jsonable(rows)})
+            continue
+        if [tuple(map(typed_u, r)) for r in got] != [tuple(map(typed_u, r)) for r in exp]:
+            acc.violation('distinct:unhashable-values', f'{show(stmt)} on rows {rows!r}: got {got!r}, reference (first occurrences by equality) {exp!r}',
+                          {'kind': 'unhashable', 'tag': tag, 'rows': jsonable(rows)})
+            continue
+        acc.count('distinct_removed', info.get('distinct_removed', 0))
+
+
+def typed_u(v):
+    return (type(v).__name__, repr(v))
+
+
 def replay(c):
     acc = Acc()
+    if c['kind'] == 'unhashable':
+        sweep4_one([tuple(r) for r in unjson(c['rows'])], ustatements(), acc, only=c['tag'])
+        return acc.violations
     if c['kind'] == 'pair':
         sweep2_pair(ledger_conn(), c['table'], c['c1'], c['c2'], acc)
     elif c['kind'] == 'subq':
@@ -316,6 +379,7 @@ def run(ctx):
     acc2 = run_shards(sweep2, ctx.jobs)
     acc3 = Acc()
     sweep3(acc3)
+    acc3.merge(run_shards(sweep4, ctx.jobs, ctx.pick(3, 4)))
     n = acc.n
     ex = n['executions'] + acc2.n['executions'] + acc3.n['executions']
     cov = {
@@ -331,6 +395,7 @@ def run(ctx):
         'results_with_2plus_rows': n['results_with_2plus_rows'], 'distinct_removed_rows': n['distinct_removed'], 'limit_cut_rows': n['limit_cut'],
         'table_kind_sweep': {'column_pairs': acc2.n['column_pairs'], 'pairs_where_order_changes_rows': acc2.n['pairs_where_order_changes_rows']},
         'subquery_order_statements': acc3.n['subquery_order_statements'],
+        'distinct_over_unhashable_values_statements': acc3.n['unhashable_distinct_statements'],
         'samples': acc.samples,
     }
     return Result(cov, acc.violations + acc2.violations + acc3.violations,
